@@ -63,6 +63,8 @@ pub enum Action {
     /// n streams opened at once with the same payload, all held open
     Burst(u8, Payload),
     Uni(u16),
+    /// a uni stream carrying the first n bytes of anemo's preamble, neither finished nor reset
+    UniHeld(u8),
     Datagram(u16),
     /// a well-formed request from Z on a registered route: must be answered correctly
     WellFormed(u8, u16),
@@ -266,6 +268,7 @@ pub fn check(case: &Case, obs: &mut Obs) -> Result<(), Fail> {
             });
         }
         let mut held: Vec<(quinn::SendStream, quinn::RecvStream)> = Vec::new();
+        let mut held_uni: Vec<quinn::SendStream> = Vec::new();
         let mut hostile_listeners = 0u32;
         let mut hostile_eps = Vec::new();
         let (mut flooders, mut total_abandoned_in_flight, mut stateless_resets) = (0u32, 0usize, 0u32);
@@ -321,6 +324,13 @@ pub fn check(case: &Case, obs: &mut Obs) -> Result<(), Fail> {
                     if let Ok(Ok(mut u)) = within(2_000, conn.open_uni()).await {
                         let _ = within(2_000, u.write_all(&vec![0xAB; *len as usize])).await;
                         let _ = u.finish();
+                    }
+                }
+                Action::UniHeld(n) => {
+                    n_malformed += 1;
+                    if let Ok(Ok(mut u)) = within(2_000, conn.open_uni()).await {
+                        let _ = within(2_000, u.write_all(&adv::PREAMBLE[..(*n as usize).min(8)])).await;
+                        held_uni.push(u);
                     }
                 }
                 Action::Datagram(len) => { let _ = conn.send_datagram(Bytes::from(vec![0xCD; (*len as usize).min(1000)])); }
@@ -494,6 +504,7 @@ pub fn check(case: &Case, obs: &mut Obs) -> Result<(), Fail> {
             None => drop(z_ep),
         }
         drop(held);
+        drop(held_uni);
         sleep_ms(200).await;
         check_no_panics("after the hostile peer closed")?;
         vensure!(!v.net.is_closed(), "c06:network-shut-down", "after the hostile peer's close the victim network reports closed");
@@ -534,12 +545,23 @@ fn payload() -> BoxedStrategy<Payload> {
     .boxed()
 }
 
+/// close reasons: random bytes, and ASCII runs of 0-300 bytes followed by a multi-byte character
+/// (so that every small byte offset is at some time the middle of a character)
+fn close_reason() -> BoxedStrategy<Vec<u8>> {
+    prop_oneof![
+        2 => prop::collection::vec(any::<u8>(), 0..40),
+        1 => prop::collection::vec(any::<u8>(), 40..400),
+        3 => (0usize..300, prop::sample::select(vec!["é", "ß", "€", "😀", "\u{fffd}"]), 0usize..40).prop_map(|(n, ch, m)| { let mut v = vec![b'a'; n]; v.extend_from_slice(ch.as_bytes()); v.extend(std::iter::repeat(b'z').take(m)); v }),
+    ]
+    .boxed()
+}
+
 pub struct Scripts;
 impl Part for Scripts {
     type Case = Case;
     fn name(&self) -> &'static str { "hostile-scripts" }
     fn rule(&self) -> &'static str {
-        "victim = Router (exact, wildcard, rpc-style routes) behind the network's own layers with max_frame_size and timeouts set; honest peer H; adversary Z = raw QUIC endpoint with a VALID identity, admitted; Z's generated script: request streams carrying {random bytes, mutated valid request, valid request truncated at a generated offset (also inside the preamble and the first length prefix), frame lengths up to 0xFFFFFFFF, valid preamble + hostile bincode (huge string/map lengths, invalid UTF-8, 10^4-char route), well-formed requests with odd routes and timeout-header values (0, tiny, huge, garbage)} ended by {finish, reset, stop of the response side, hold open, read}, bursts of held streams, uni streams, datagrams, hostile RESPONSES when the victim calls Z (junk, truncated, unknown status, oversized, reset, never), hostile LISTENERS the victim dials (never acknowledge, wrong preamble, junk + reset, immediate close with non-UTF-8 reason, uni-stream flood after a correct acknowledgement, crash without close + restart answering the victim's next packet with a valid stateless reset), rounds of up to 9 further hostile peers each abandoning up to 100 in-flight (incomplete or slow) requests by closing abruptly, interleaved with honest H<->V RPCs and well-formed Z RPCs, then an abrupt close with arbitrary code and (non-UTF-8) reason bytes; oracle: no panic anywhere, victim not closed, every honest RPC and every well-formed Z RPC answered with exactly F(request), calls to Z return, a fresh connection is accepted and served afterwards; non-trivial = script with >=1 malformed stream and >=1 concurrent honest or well-formed RPC; distinct by script"
+        "victim = Router (exact, wildcard, rpc-style routes) behind the network's own layers with max_frame_size and timeouts set; honest peer H; adversary Z = raw QUIC endpoint with a VALID identity, admitted; Z's generated script: request streams carrying {random bytes, mutated valid request, valid request truncated at a generated offset (also inside the preamble and the first length prefix), frame lengths up to 0xFFFFFFFF, valid preamble + hostile bincode (huge string/map lengths, invalid UTF-8, 10^4-char route), well-formed requests with odd routes and timeout-header values (0, tiny, huge, garbage)} ended by {finish, reset, stop of the response side, hold open, read}, bursts of held streams, uni streams (finished, or abandoned after 0-8 bytes of the preamble), datagrams, hostile RESPONSES when the victim calls Z (junk, truncated, unknown status, oversized, reset, never), hostile LISTENERS the victim dials (never acknowledge, wrong preamble, junk + reset, immediate close with non-UTF-8 reason, uni-stream flood after a correct acknowledgement, crash without close + restart answering the victim's next packet with a valid stateless reset), rounds of up to 9 further hostile peers each abandoning up to 100 in-flight (incomplete or slow) requests by closing abruptly, interleaved with honest H<->V RPCs and well-formed Z RPCs, then an abrupt close with arbitrary code and reason bytes (random, up to 400 bytes, or ASCII runs of 0-300 bytes followed by a multi-byte character); oracle: no panic anywhere, victim not closed, every honest RPC and every well-formed Z RPC answered with exactly F(request), calls to Z return, a fresh connection is accepted and served afterwards; non-trivial = script with >=1 malformed stream and >=1 concurrent honest or well-formed RPC; distinct by script"
     }
     fn strategy(&self, _t: Tier) -> BoxedStrategy<Case> {
         let ending = prop_oneof![3 => Just(Ending::Finish), 2 => any::<u8>().prop_map(Ending::Reset), 1 => any::<u8>().prop_map(Ending::StopResponse), 1 => Just(Ending::HoldOpen), 2 => Just(Ending::FinishAndRead)];
@@ -551,6 +573,7 @@ impl Part for Scripts {
             8 => (payload(), ending).prop_map(|(p, e)| Action::Stream(p, e)),
             1 => (1u8..120, payload()).prop_map(|(n, p)| Action::Burst(n, p)),
             1 => (0u16..3000).prop_map(Action::Uni),
+            1 => (0u8..10).prop_map(Action::UniHeld),
             1 => (0u16..1200).prop_map(Action::Datagram),
             3 => (0u8..3, 0u16..3000).prop_map(|(r, b)| Action::WellFormed(r, b)),
             3 => any::<bool>().prop_map(Action::Honest),
@@ -559,7 +582,7 @@ impl Part for Scripts {
             1 => (prop_oneof![3 => 1u8..3, 1 => 6u8..10], prop_oneof![1 => 1u8..20, 2 => 90u8..101], any::<bool>()).prop_map(|(rounds, streams, slow)| Action::FloodRounds { rounds, streams, slow }),
             1 => (0u8..50).prop_map(Action::Sleep),
         ];
-        (prop::collection::vec(action, 1..25), prop::option::weighted(0.8, (any::<u32>().prop_map(|c| c & 0x3fff_ffff), prop::collection::vec(any::<u8>(), 0..40))), 1u8..15)
+        (prop::collection::vec(action, 1..25), prop::option::weighted(0.8, (any::<u32>().prop_map(|c| c & 0x3fff_ffff), close_reason())), 1u8..15)
             .prop_map(|(actions, close, link_delay_ms)| Case { actions, close, link_delay_ms })
             .boxed()
     }
